@@ -66,6 +66,15 @@ class Choices:
         self.rec.append((label, n, v))
         return v
 
+    def fixed(self, n: int, label: str, value: Optional[int]) -> int:
+        """An enumerated (not drawn) decision: recorded like a choice so that replay files stay self-contained."""
+        if self.replaying or value is None:
+            return self.choose(n, label)
+        label = self.prefix + label
+        v = max(0, min(n - 1, int(value)))
+        self.rec.append((label, n, v))
+        return v
+
     # helpers, all expressed through choose so that 0 stays "simplest"
     def chance(self, num: int, den: int, label: str = "") -> bool:
         """True with probability num/den; the replay value 0 means False."""
